@@ -23,16 +23,27 @@ Core-only executable model. It mirrors the code that exists (defects included):
   `self.ProcessCommad`; `TextServerProtocol.ProcessLockResultCommand` on a closed connection drops the result.
   `ProcessLockResultCommandLocked` first applies the late-reply filter `RequestId ≠ lockRequestId`.
 * A proxy carrying the all-zero id (its connection never announced one) is not looked up in `clients` (commit 5edcdb1).
+* `BinaryServerProtocol.ProcessCommad(COMMAND_ADMIN)` answers, then runs a NESTED `TextServerProtocol` on the same stream
+  (`Event.admin`: a new text record with `outer = some c`; the binary connection processes nothing until it returns).
+  Every way the nested `Process()` returns — read error, parse error, text QUIT — is an error the binary `Process()`
+  passes on to `server.handle`, which closes the binary connection. When the nested loop returns the branch ends the
+  nested protocol like any text connection — `Close()` with its `stream` field cleared, so the shared stream is left to
+  the outer `Close` (repo commit, see C18.lean; before it the nested protocol was only marked `closed`: its wills never
+  ran, its session stayed in `protocolSessions` until the 120 s sweep, its proxies were not re-pointed).
 * A text LOCK blocks its handler goroutine in `<-lockWaiter`; a peer that goes away meanwhile is noticed only when the
   reply is written (`halfClosed`), and only then `server.handle` calls `Close`.
 * `server.handle`: read error (client EOF), protocol error (`ProcessParse` error) and `stream.Close()` by the server
   (CLIENT KILL, shutdown) all end in the same `serverProtocol.Close()`; the cause is carried for the record only.
 
-The lock engine is abstract: executing a will is the event "submitted to the engine" (`Server.engine`, in order);
+The lock engine is abstract: executing a will is the event "`Close` handed it to `ProcessCommad`" (`Server.willLog`, in
+order). `ProcessCommad` either submits it to the engine, or — `Will.self`: DbId 0xff, or an UNLOCK for a db id that was
+never created — answers it ITSELF with RESULT_UNKNOWN_DB through `self.ProcessLockResultCommand`, which on the closed
+connection fails ("Protocol Closed", the error `Close` ignores) or is delivered to the connection that re-announced the
+same client id; such a will never reaches the engine, and the loop goes on with the next one either way;
 a pending request is a token whose issuing connection the engine remembers through that connection's proxy
 (`Server.owner`); `Event.deliver tok` = "the engine answers token `tok` now"; a will carries the bit `imm` = "the engine
 answers it inside the submitting call" (told by the environment, like every engine fact).
-Ghost fields (never read by the transition function): `Conn.reg`, `Conn.announced`, `Server.engine`.
+Ghost fields (never read by the transition function): `Conn.reg`, `Conn.announced`, `Server.willLog`.
 -/
 namespace Slock.Conn
 
@@ -49,7 +60,10 @@ inductive Target where
 
 structure Will where
   tok : Nat
+  /-- the engine answers it inside the submitting call -/
   imm : Bool
+  /-- answered by the protocol itself (RESULT_UNKNOWN_DB), never submitted to the engine -/
+  self : Bool := false
   deriving DecidableEq, Repr, Inhabited
 
 structure Conn where
@@ -64,6 +78,10 @@ structure Conn where
   awaiting : Nat := 0
   /-- text: the peer is gone while the handler is blocked; noticed at the next write -/
   halfClosed : Bool := false
+  /-- binary: the record of the nested text protocol started by ADMIN -/
+  nested : Option Nat := none
+  /-- nested text protocol: the binary connection whose stream it reads -/
+  outer : Option Nat := none
   /-- ghost: tokens of the accepted will registrations, in order -/
   reg : List Nat := []
   /-- ghost: every client id this connection ever announced -/
@@ -78,7 +96,7 @@ structure Server where
   conns : List Conn := []
   clients : List (Nat × Nat) := []
   owner : List (Nat × Nat) := []
-  engine : List (Nat × Nat) := []
+  willLog : List (Nat × Nat) := []
   dead : Option Fatal := none
   deriving DecidableEq, Repr
 
@@ -157,27 +175,36 @@ def route (s : Server) (tok : Nat) : Server × Dest :=
 def unadopt (c : Nat) (x : Conn) : Conn :=
   if x.target = .conn c then { x with target := .default } else x
 
-/-- `Close` pops the will queue from the head; each command is submitted to the engine through `self.ProcessCommad`, and
-if the engine answers inside that call the reply goes to `self.ProcessLockResultCommand`. Binary: the closed branch of
-`recvN` on `s₁` (`c` already marked closed and unregistered, still inited). Returns the submitted wills with the fate of
-their immediate reply (`none` = queued in the engine), and the fatal condition that stopped the loop, if any. -/
-def drain (s₁ : Server) (c : Nat) : List Will → List (Nat × Option Dest) × Option Fatal
+/-- what `Close` did with one will: `self` = answered by the protocol itself, `reply` = fate of the reply produced
+inside the call (`none` = the engine queued the request) -/
+structure WillRes where
+  tok : Nat
+  self : Bool
+  reply : Option Dest
+  deriving DecidableEq, Repr
+
+/-- `Close` pops the will queue from the head and hands each command to `self.ProcessCommad`. If a reply is produced
+inside that call — by the engine (`imm`) or by the protocol itself (`self`) — it goes to
+`self.ProcessLockResultCommand`. Binary: the closed branch of `recvN` on `s₁` (`c` already marked closed and
+unregistered, still inited). The error that returns is ignored: the loop always goes on with the next will. Returns the
+outcome per will, and the fatal condition that stopped the loop, if any. -/
+def drain (s₁ : Server) (c : Nat) : List Will → List WillRes × Option Fatal
   | [] => ([], none)
   | w :: ws =>
-    if w.imm then
+    if w.imm || w.self then
       match recv s₁ c w.tok with
-      | .loop => ([(w.tok, some .loop)], some .crash)
+      | .loop => ([⟨w.tok, w.self, some .loop⟩], some .crash)
       | d =>
         let r := drain s₁ c ws
-        ((w.tok, some d) :: r.1, r.2)
+        (⟨w.tok, w.self, some d⟩ :: r.1, r.2)
     else
       let r := drain s₁ c ws
-      ((w.tok, none) :: r.1, r.2)
+      (⟨w.tok, w.self, none⟩ :: r.1, r.2)
 
-/-- text: the closed connection drops every immediate reply -/
-def drainT : List Will → List (Nat × Option Dest)
+/-- text: the closed connection drops every reply produced inside the call -/
+def drainT : List Will → List WillRes
   | [] => []
-  | w :: ws => (w.tok, if w.imm then some .dropped else none) :: drainT ws
+  | w :: ws => ⟨w.tok, w.self, if w.imm || w.self then some .dropped else none⟩ :: drainT ws
 
 def putOwners (m : List (Nat × Nat)) (c : Nat) : List Nat → List (Nat × Nat)
   | [] => m
@@ -189,8 +216,8 @@ inductive Out where
   | inited (t : Nat)
   | ok
   | routed (d : Dest)
-  | routedClosed (d : Dest) (res : List (Nat × Option Dest)) (f : Option Fatal)
-  | closed (res : List (Nat × Option Dest)) (f : Option Fatal)
+  | routedClosed (d : Dest) (res : List WillRes) (f : Option Fatal)
+  | closed (res : List WillRes) (f : Option Fatal)
   | deferred
   | noop
   deriving DecidableEq, Repr
@@ -201,7 +228,7 @@ def closing (x : Conn) : Conn :=
   { x with closed := true, target := .default, halfClosed := false, wills := [] }
 
 /-- the will loop of `Close` by protocol kind -/
-def drainK (s₁ : Server) (c : Nat) (x : Conn) : List (Nat × Option Dest) × Option Fatal :=
+def drainK (s₁ : Server) (c : Nat) (x : Conn) : List WillRes × Option Fatal :=
   match x.kind with
   | .binary => drain s₁ c x.wills
   | .text => (drainT x.wills, none)
@@ -212,78 +239,71 @@ def unregister (s : Server) (c : Nat) (x : Conn) : List (Nat × Nat) :=
 
 /-- `Close()` of open connection `c` (record `x`): mark closed, re-point the proxies, unregister, drain the wills, clear
 `inited` (a text connection has neither `inited` nor a registration: its `inited` is constantly false). -/
-def doClose (s : Server) (c : Nat) (x : Conn) : Server × List (Nat × Option Dest) × Option Fatal :=
+def doClose (s : Server) (c : Nat) (x : Conn) : Server × List WillRes × Option Fatal :=
   let s₁ : Server := { s with conns := (s.conns.map (unadopt c)).set c (closing x), clients := unregister s c x }
   let r := drainK s₁ c x
-  let toks := r.1.map (·.1)
-  let s₂ : Server := { s₁ with engine := s.engine ++ toks.map (fun t => (c, t)), owner := putOwners s.owner c toks, dead := r.2 }
+  let toks := r.1.map (·.tok)
+  let s₂ : Server := { s₁ with willLog := s.willLog ++ toks.map (fun t => (c, t)), owner := putOwners s.owner c toks, dead := r.2 }
   match r.2 with
   | some _ => (s₂, r.1, r.2)
   | none => ({ s₂ with conns := s₂.conns.set c { closing x with inited := false } }, r.1, none)
 
 /-! ### events -/
 inductive Cause where
-  | client | protoErr | server
+  | client | protoErr | server | quit   -- quit: the binary QUIT command (answered, then `Process` returns io.EOF)
   deriving DecidableEq, Repr
 
 inductive Event where
   | open (k : Kind)
   | init (c cid : Nat)
-  | will (c tok : Nat) (imm : Bool)
+  | will (c tok : Nat) (imm : Bool) (self : Bool)
   | request (c tok : Nat)
   | deliver (tok : Nat)
   | close (c : Nat) (cause : Cause)
+  | admin (c : Nat)
   deriving DecidableEq, Repr
 
 def stepInit (s : Server) (c cid : Nat) : Server × Out :=
   match s.conns[c]? with
   | none => (s, .ignored)
   | some x =>
-    if x.closed = true ∨ x.kind = .text ∨ x.awaiting ≠ 0 then (s, .ignored)
+    if x.closed = true ∨ x.kind = .text ∨ x.awaiting ≠ 0 ∨ x.nested ≠ none then (s, .ignored)
     else
       let cl₁ := if x.inited = true ∧ aget s.clients x.cid = some c then adel s.clients x.cid else s.clients
       let t := if (aget cl₁ cid).isSome then 1 else 0
       ({ s with conns := s.conns.set c { x with cid := cid, inited := true, announced := cid :: x.announced },
                 clients := aput cl₁ cid c }, .inited t)
 
-def stepWill (s : Server) (c tok : Nat) (imm : Bool) : Server × Out :=
+def stepWill (s : Server) (c tok : Nat) (imm self : Bool) : Server × Out :=
   match s.conns[c]? with
   | none => (s, .ignored)
   | some x =>
-    if x.closed = true ∨ x.awaiting ≠ 0 then (s, .ignored)
-    else ({ s with conns := s.conns.set c { x with wills := x.wills ++ [{ tok := tok, imm := imm }], reg := x.reg ++ [tok] } }, .ok)
+    if x.closed = true ∨ x.awaiting ≠ 0 ∨ x.nested ≠ none then (s, .ignored)
+    else ({ s with conns := s.conns.set c { x with wills := x.wills ++ [{ tok := tok, imm := imm, self := self }], reg := x.reg ++ [tok] } }, .ok)
 
 def stepRequest (s : Server) (c tok : Nat) : Server × Out :=
   match s.conns[c]? with
   | none => (s, .ignored)
   | some x =>
-    if x.closed = true ∨ x.awaiting ≠ 0 then (s, .ignored)
+    if x.closed = true ∨ x.awaiting ≠ 0 ∨ x.nested ≠ none then (s, .ignored)
     else
       match x.kind with
       | .binary => ({ s with owner := aput s.owner tok c }, .ok)
       | .text => ({ s with owner := aput s.owner tok c, conns := s.conns.set c { x with awaiting := tok } }, .ok)
 
-/-- after the reply reached a text connection: `lockRequestId` is zeroed, the handler goes on; if the peer is gone the
-write fails and `server.handle` closes the connection -/
-def settle (s : Server) : Dest → Server × Out
-  | .to d =>
-    match s.conns[d]? with
-    | some y => if y.kind = .text then ({ s with conns := s.conns.set d { y with awaiting := 0 } }, .routed (.to d)) else (s, .routed (.to d))
-    | none => (s, .routed (.to d))
-  | .lost d =>
-    match s.conns[d]? with
-    | some y =>
-      let y₀ := { y with awaiting := 0 }
-      let r := doClose { s with conns := s.conns.set d y₀ } d y₀
-      (r.1, .routedClosed (.lost d) r.2.1 r.2.2)
-    | none => (s, .routed (.lost d))
-  | d => (s, .routed d)
+/-- ADMIN on open binary connection `c`: a nested text protocol (a new record) takes over the stream -/
+def stepAdmin (s : Server) (c : Nat) : Server × Out :=
+  match s.conns[c]? with
+  | none => (s, .ignored)
+  | some x =>
+    if x.closed = true ∨ x.kind = .text ∨ x.awaiting ≠ 0 ∨ x.nested ≠ none then (s, .ignored)
+    else
+      ({ s with conns := s.conns.set c { x with nested := some s.conns.length } ++ [{ kind := .text, outer := some c }] },
+       .opened s.conns.length)
 
-def stepDeliver (s : Server) (tok : Nat) : Server × Out :=
-  let r := route s tok
-  settle r.1 r.2
-
-def stepClose (s : Server) (c : Nat) : Server × Out :=
+/-- `Close()` reached for the single record `c` (the end of its `Process()` loop): nothing if already closed; a blocked
+text handler notices only at the next write -/
+def closeOne (s : Server) (c : Nat) : Server × Out :=
   match s.conns[c]? with
   | none => (s, .ignored)
   | some x =>
@@ -293,6 +313,60 @@ def stepClose (s : Server) (c : Nat) : Server × Out :=
       let r := doClose s c x
       (r.1, .closed r.2.1 r.2.2)
 
+/-- the connection whose stream record `c` reads -/
+def streamOf (s : Server) (c : Nat) : Nat :=
+  match s.conns[c]? with
+  | some x => x.outer.getD c
+  | none => c
+
+/-- the nested text protocol of connection `o`, while it is running -/
+def nestedOf (s : Server) (o : Nat) : Option Nat :=
+  match s.conns[o]? with
+  | none => none
+  | some x =>
+    match x.nested with
+    | none => none
+    | some n =>
+      match s.conns[n]? with
+      | none => none
+      | some y => if y.closed = true then none else some n
+
+/-- the stream of record `c` ends: a running nested text protocol ends first (its `Close`, wills included), then the
+connection itself closes; a blocked nested handler defers everything to its next write -/
+def stepClose (s : Server) (c : Nat) : Server × Out :=
+  match nestedOf s (streamOf s c) with
+  | none => closeOne s (streamOf s c)
+  | some n =>
+    let r₁ := closeOne s n
+    match r₁.2 with
+    | .closed res₁ none =>
+      let r₂ := closeOne r₁.1 (streamOf s c)
+      match r₂.2 with
+      | .closed res₂ f => (r₂.1, .closed (res₁ ++ res₂) f)
+      | _ => r₂
+    | _ => r₁
+
+/-- after the reply reached a text connection: `lockRequestId` is zeroed, the handler goes on; if the peer is gone the
+write fails, `Process()` returns and the stream's connection is closed -/
+def settle (s : Server) : Dest → Server × Out
+  | .to d =>
+    match s.conns[d]? with
+    | some y => if y.kind = .text then ({ s with conns := s.conns.set d { y with awaiting := 0 } }, .routed (.to d)) else (s, .routed (.to d))
+    | none => (s, .routed (.to d))
+  | .lost d =>
+    match s.conns[d]? with
+    | some y =>
+      let r := stepClose { s with conns := s.conns.set d { y with awaiting := 0 } } d
+      match r.2 with
+      | .closed res f => (r.1, .routedClosed (.lost d) res f)
+      | _ => (r.1, .routed (.lost d))
+    | none => (s, .routed (.lost d))
+  | d => (s, .routed d)
+
+def stepDeliver (s : Server) (tok : Nat) : Server × Out :=
+  let r := route s tok
+  settle r.1 r.2
+
 def step (s : Server) (e : Event) : Server × Out :=
   match s.dead with
   | some _ => (s, .ignored)
@@ -300,10 +374,11 @@ def step (s : Server) (e : Event) : Server × Out :=
     match e with
     | .open k => ({ s with conns := s.conns ++ [{ kind := k }] }, .opened s.conns.length)
     | .init c cid => stepInit s c cid
-    | .will c tok imm => stepWill s c tok imm
+    | .will c tok imm sf => stepWill s c tok imm sf
     | .request c tok => stepRequest s c tok
     | .deliver tok => stepDeliver s tok
     | .close c _ => stepClose s c
+    | .admin c => stepAdmin s c
 
 def run (evs : List Event) : Server := evs.foldl (fun s e => (step s e).1) {}
 
@@ -311,10 +386,10 @@ def runOut : Server → List Event → List Out
   | _, [] => []
   | s, e :: es => (step s e).2 :: runOut (step s e).1 es
 
-/-- the will tokens of connection `c` in an engine submission log, in order -/
+/-- the will tokens of connection `c` in a will execution log, in order -/
 def execL (eng : List (Nat × Nat)) (c : Nat) : List Nat := (eng.filter (fun e => e.1 = c)).map (·.2)
 
-/-- the will tokens of connection `c` the engine has received, in order -/
-def execOf (s : Server) (c : Nat) : List Nat := execL s.engine c
+/-- the will tokens of connection `c` that `Close` has executed (handed to `ProcessCommad`), in order -/
+def execOf (s : Server) (c : Nat) : List Nat := execL s.willLog c
 
 end Slock.Conn
